@@ -6,6 +6,8 @@ import RjModel.Lemmas.PlannerInv
 import RjModel.Generated.Walker
 import RjModel.Model.Confirm
 import RjModel.Generated.RootRelSrc
+import RjModel.Generated.ConfirmShape
+import RjModel.Model.ConfirmShape
 /-! # C12 â€” symlinks are copied as links and never followed
 
 Proved about the model (for every tree, every link text as a byte string, every command sequence):
@@ -157,6 +159,12 @@ theorem C12_is_inside_is_the_sources : Generated.rootRelTranslated = true âˆ§ âˆ
   by_cases h : f = ""
   Â· by_cases hk : k = "" <;> simp [h, hk]
   Â· simp [h]
+
+
+/-- **The doer's `exec_command` still has the shape the doer model was written against** (a pin: the normalised text of the function in doer.rs, extracted on
+every run, equals the copy in `Model/ConfirmShape.lean`).  The doer model is tied to the real doer by the L3 / `fsx` streams; this makes every edit of the
+function visible, also where the streams do not reach. -/
+theorem C12_exec_command_shape : Generated.execCommandShape = execCommandShapeRef := by rfl
 
 
 end Rj.C12
